@@ -208,6 +208,35 @@ def run(ctx):
         if kick == 0.0 and len(a) < nx * ny - nx - ny:
             rep(f"only {len(a)} of {nx * ny} jittered grid points survive without kicks"); continue
         ctx.case((name,), nontrivial=len(a) > 1)
+    # ---- interleaving: a call must not depend on the call before it.  Shapes with equal nx*ny (the natural key of a careless cache) alternate; the result for a
+    #      shape right after another shape is compared with the result of the same call repeated immediately
+    interleaved = []
+    for (a, b) in [((3, 4), (4, 3)), ((2, 8), (4, 4)), ((2, 6), (3, 4)), ((1, 12), (12, 1)), ((5, 2), (2, 5)), ((6, 6), (4, 9))]:
+        for fn_name in ("hyperuniform", "bluenoise"):
+            seed = int(rng.integers(2 ** 31))
+            call = (lambda shp: psets.hyperuniform(shp[0], shp[1], 0.01, rng=np.random.default_rng(seed))) if fn_name == "hyperuniform" else \
+                   (lambda shp: psets.bluenoise(5, shp[0], shp[1], rng=np.random.default_rng(seed)))
+            name = f"{fn_name} {a} then {b} (seed={seed})"
+            try:
+                call(a); r1 = call(b); r2 = call(b); call(b); r3 = call(a); r4 = call(a)
+            except Exception as ex:
+                ctx.impl_violation(f"{name}: raised {type(ex).__name__}: {ex}", dict(case=name, fn=fn_name, shapes=[list(a), list(b)], seed=seed)); continue
+            if np.shape(r1) != np.shape(r2) or not np.array_equal(r1, r2) or np.shape(r3) != np.shape(r4) or not np.array_equal(r3, r4):
+                ctx.impl_violation(f"{name}: the same seeded call gives different points depending on the call made before it", dict(case=name, fn=fn_name, shapes=[list(a), list(b)], seed=seed))
+            expr = (lambda shp: f"psets.hyperuniform({shp[0]}, {shp[1]}, 0.01, rng=np.random.default_rng({seed}))") if fn_name == "hyperuniform" else \
+                   (lambda shp: f"psets.bluenoise(5, {shp[0]}, {shp[1]}, rng=np.random.default_rng({seed}))")
+            interleaved.append((name, fn_name, a, b, seed, r1, r3, expr(b), expr(a)))
+            ctx.case((name,), nontrivial=True)
+    # the same calls, each as the first call of a fresh interpreter: the history-free reference
+    refs = core.fresh_eval([x for it in interleaved for x in (it[7], it[8])], preamble="import numpy as np\nfrom koala import pointsets as psets")
+    for k, (name, fn_name, a, b, seed, r1, r3, _, _) in enumerate(interleaved):
+        fb, fa = refs[2 * k], refs[2 * k + 1]
+        if isinstance(fb, Exception) or isinstance(fa, Exception):
+            ctx.notes.append(f"{name}: fresh-interpreter reference not available"); continue
+        if np.shape(fb) != np.shape(r1) or not np.array_equal(fb, r1) or np.shape(fa) != np.shape(r3) or not np.array_equal(fa, r3):
+            ctx.impl_violation(f"{name}: the seeded call made after another shape differs from the same call made first in a fresh interpreter: the result depends on the "
+                               "calls made before it", dict(case=name, fn=fn_name, shapes=[list(a), list(b)], seed=seed))
+        ctx.count("interleaved_calls_compared_with_fresh_interpreter")
     # ---- hyperuniform on tiny grids with strong kicks (few or no survivors of the crop): same contract
     for nx in range(1, 5):
         for ny in range(1, 5):
